@@ -103,7 +103,7 @@ def direct_traces(rng, quick=True):
 # ---- engine-level ------------------------------------------------------------------------
 
 def engine_traces(cls, listing, other_listing, diag, seed=0, chains=2, slow=(8, 10), companion="mm", tail_posterior=True,
-                  stepwise=False, fast=4, tail_fast=0):
+                  stepwise=False, fast=4, tail_fast=0, pre_burnin=0, slow_thin=1):
     """tail_posterior=False: the schedule ends with the last slow-adaptation epoch; stepwise: the epochs are appended and
     sampled one at a time (every epoch is the last configured one when it ends)."""
     """A real engine with two mass-matrix kernels over non-alphabetical keys; after each
@@ -137,7 +137,11 @@ def engine_traces(cls, listing, other_listing, diag, seed=0, chains=2, slow=(8, 
     # fast: duration of the first fast-adaptation epoch (equal to a slow epoch's duration: the tuning calls of the two
     # see histories of the same shape); tail_fast: a further fast-adaptation epoch after the slow ones
     cfgs = [EpochConfig(EpochType.INITIAL_VALUES, 1, 1, None), EpochConfig(EpochType.FAST_ADAPTATION, fast, 1, None)]
-    cfgs += [EpochConfig(EpochType.SLOW_ADAPTATION, d, 1, None) for d in slow]
+    # pre_burnin: a burn-in epoch between the fast and the first slow adaptation epoch; slow_thin: thinning of the slow
+    # adaptation epochs (the kernels are tuned on the *recorded* history of the epoch that just ended)
+    if pre_burnin:
+        cfgs += [EpochConfig(EpochType.BURNIN, pre_burnin, 1, None)]
+    cfgs += [EpochConfig(EpochType.SLOW_ADAPTATION, d, slow_thin, None) for d in slow]
     if tail_fast:
         cfgs += [EpochConfig(EpochType.FAST_ADAPTATION, tail_fast, 1, None)]
     if tail_posterior:
@@ -160,7 +164,8 @@ def engine_traces(cls, listing, other_listing, diag, seed=0, chains=2, slow=(8, 
     samples = res.positions.combine_all().unwrap()  # dict name -> [chain, time, ...]
     kstates = res.kernel_states.unwrap().combine_all().unwrap()  # list per kernel
     out = []
-    starts = np.cumsum([0] + [c.duration for c in cfgs])
+    starts = np.cumsum([0] + [c.duration // c.thinning for c in cfgs])      # stored samples
+    tstarts = np.cumsum([0] + [c.duration for c in cfgs])                    # transitions (kernel states are stored for each)
     for ki, (kern, lst) in enumerate(((k1, listing), (k2, other_listing))[: 2 if companion == "mm" else 1]):
         lst = list(lst)
         rank = {n: i + 1 for i, n in enumerate(sorted(lst))}
@@ -172,12 +177,13 @@ def engine_traces(cls, listing, other_listing, diag, seed=0, chains=2, slow=(8, 
             ev = []
             for ei, cfg in enumerate(cfgs):
                 lo, hi = int(starts[ei]), int(starts[ei + 1])  # sample indices of this epoch
+                tlo, thi = int(tstarts[ei]), int(tstarts[ei + 1])
                 if cfg.type == EpochType.FAST_ADAPTATION and ei > 1:
                     # a fast-adaptation epoch after the matrix was tuned: the matrix in force at its first transition and
                     # the one in force afterwards
-                    after = imm_all[c, hi] if hi < imm_all.shape[1] else np.asarray(eng._kernel_states[ki].inverse_mass_matrix)[c]
+                    after = imm_all[c, thi] if thi < imm_all.shape[1] else np.asarray(eng._kernel_states[ki].inverse_mass_matrix)[c]
                     fm = lambda m: [f32s(v) for v in np.ravel(m)]  # noqa: E731
-                    ev.append({"ev": "fast_keep", "epoch": ei, "before": fm(imm_all[c, lo]), "after": fm(after)})
+                    ev.append({"ev": "fast_keep", "epoch": ei, "before": fm(imm_all[c, tlo]), "after": fm(after)})
                 if cfg.type != EpochType.SLOW_ADAPTATION:
                     continue
                 cols = {}
@@ -187,7 +193,7 @@ def engine_traces(cls, listing, other_listing, diag, seed=0, chains=2, slow=(8, 
                         cols[(rank[n], o + 1)] = arr[:, o]
                 # matrix in force during the first transition of the *next* epoch (after the last epoch: the engine's
                 # final kernel state)
-                imm = imm_all[c, hi] if hi < imm_all.shape[1] else np.asarray(eng._kernel_states[ki].inverse_mass_matrix)[c]
+                imm = imm_all[c, thi] if thi < imm_all.shape[1] else np.asarray(eng._kernel_states[ki].inverse_mass_matrix)[c]
                 ev.append({"ev": "tune", "flat": flat, "epoch": ei,
                            "hist": [[f32s(v) for v in cols[cc]] for cc in fo],
                            "imm": [f32s(v) for v in imm] if diag else [[f32s(v) for v in row] for row in imm]})
